@@ -157,6 +157,17 @@ def boundary_calls():
             else:
                 expand(i + 1, args + [canon.get(k, J.num(1))])
         expand(0, [])
+    # one surplus argument for every function (documented failure value), and the alias forms of the two-container mutators
+    for name in sorted(SIGS):
+        kinds = [k.lstrip('?') for k in SIGS[name] if not k.startswith('*')]
+        if any(k.startswith('*') for k in SIGS[name]):
+            continue
+        args = [canon.get(k, J.num(1)) if k != 'index' else J.num(1) for k in kinds]
+        out.append((name, J.call(name, *(args + [J.num(9)]))))
+        out.append((name, J.call(name, *(args + [J.var('null')]))))
+    for name in ('arrayExtend', 'objectAssign'):
+        for a, b in (('a1', 'a1'), ('a1', 'a2'), ('a2', 'a1'), ('a1', 'a3')) if name == 'arrayExtend' else (('o1', 'o1'), ('o1', 'o2')):
+            out.append((name, J.call(name, J.var(a), J.var(b))))
     # de-duplicate (optional-absent variants are emitted once per prefix)
     seen, res = set(), []
     for name, e in out:
